@@ -313,6 +313,20 @@ fn execute(plan: &MacroPlan, mode: Mode) -> RunOut {
                                 Ok(Ok(_)) => v.push(Violation::new("C20/result", "C20/refusal", format!("{} succeeded a second time although the registration must be refused", arm))),
                                 Ok(Err(_)) => {}
                             }
+                            // a refused call leaves the registry as it was: the first metric is still
+                            // gathered, with its value, and a third call is refused as well
+                            let after = if c.with_registry { compat::families_of(&named.gather()) } else { compat::families_of(&prometheus::gather()) };
+                            match (find(&after, &gname), find(&exp, &gname)) {
+                                (Some(a), Some(b)) if a == b => {}
+                                (a, _) => v.push(Violation::new("C20/registered", "C20/refused-call-changed-registry", format!("{}: after a second, refused call the registry gathers {:?} for {:?}; the metric registered by the first call must still be there unchanged", arm, a.map(|f| &f.metrics), gname))),
+                            }
+                            let r3 = crate::seams::catch(|| super::macro_arms::invoke(&c.kind, &c.form, c.with_registry, c.trailing, &c.args, &named));
+                            if let Ok(Ok(h3)) = r3 {
+                                v.push(Violation::new("C20/result", "C20/refusal", format!("{} succeeded on a third call although an equal metric is registered", arm)));
+                                if !c.with_registry {
+                                    to_unregister.push(h3.collector());
+                                }
+                            }
                         }
                         if !c.with_registry {
                             to_unregister.push(h.collector());
